@@ -155,6 +155,20 @@ fn common<T: PartialOrd + Debug + Clone, N: ArrayLength>(a: &[T], b: &[T]) -> Re
     }
     debug_all(&ga, &sa)?;
     debug_all(&gb, &sb)?;
+    // an array compared with itself (same object): must still agree with the slice (NaN is not equal to itself)
+    #[allow(clippy::eq_op)]
+    {
+        if (ga == ga) != (sa == sa) || (ga != ga) != (sa != sa) {
+            return Err(format!("a == a gives {}, the slice compared with itself gives {}", ga == ga, sa == sa));
+        }
+        if ga.partial_cmp(&ga) != sa.partial_cmp(sa) {
+            return Err(format!("a.partial_cmp(&a) gives {:?}, the slice gives {:?}", ga.partial_cmp(&ga), sa.partial_cmp(sa)));
+        }
+        let r: &GenericArray<T, N> = &ga;
+        if (r == r) != (sa == sa) || (r <= r) != (sa <= sa) {
+            return Err("comparison of an array with itself through references disagrees with the slice".into());
+        }
+    }
     Ok((ga, gb))
 }
 
@@ -162,6 +176,12 @@ fn total<T: Ord + Hash + Debug + Clone, N: ArrayLength>(a: &[T], b: &[T]) -> Res
     let (ga, gb) = common::<T, N>(a, b)?;
     if ga.cmp(&gb) != a.cmp(b) {
         return Err(format!("cmp gives {:?}, the slices give {:?}", ga.cmp(&gb), a.cmp(b)));
+    }
+    if gb.cmp(&ga) != b.cmp(a) || ga.cmp(&ga) != std::cmp::Ordering::Equal {
+        return Err("cmp with swapped / identical operands disagrees with the slices".into());
+    }
+    if ga.clone().max(gb.clone()).as_slice() != std::cmp::max(a, b) || ga.clone().min(gb.clone()).as_slice() != std::cmp::min(a, b) {
+        return Err("Ord::max / Ord::min of the arrays differ from those of the slices".into());
     }
     for (g, s) in [(&ga, a), (&gb, b)] {
         let (mut r1, mut r2) = (Recorder::default(), Recorder::default());
@@ -314,9 +334,15 @@ fn random_strategy() -> impl Strategy<Value = Case> {
             *v = r().rem_euclid(modulus);
         }
         if mode == 1 && prefix < n {
-            // differ at exactly one late position
+            // differ at exactly one position
             b = a.clone();
             b[prefix] = (a[prefix] + 1).rem_euclid(modulus);
+        }
+        if mode == 3 && n > 0 {
+            // differ at exactly one of the last four positions (tail handling of blocked comparisons)
+            b = a.clone();
+            let pos = n - 1 - (ps as usize % n.min(4));
+            b[pos] = (a[pos] + 1 + (seed % 3) as i32).rem_euclid(modulus);
         }
         Case { ty, a, b }
     })
@@ -351,7 +377,7 @@ pub fn main() {
         Report {
             prop: PROP,
             level: "exploration",
-            rule: "case = (element type u8/i32/f64/String/nested GenericArray<u8,U3>, pair of arrays a, b of equal length). Exhaustive: all pairs over the alphabet {0,1,2} for N in 0..=4 (u8) and over {NaN,-0.0,0.0,1.0,inf} for N in 0..=3 (f64); random: proptest pairs biased to share a prefix (equal, differ from a random position on, differ at exactly one position) for the 34-length lattice. \
+            rule: "case = (element type u8/i32/f64/String/nested GenericArray<u8,U3>, pair of arrays a, b of equal length). Exhaustive: all pairs over the alphabet {0,1,2} for N in 0..=4 (u8) and over {NaN,-0.0,0.0,1.0,inf} for N in 0..=3 (f64); random: proptest pairs biased to share a prefix (equal, differ from a random position on, differ at exactly one position, differ only in one of the last four positions); every array is also compared with itself for the 34-length lattice. \
                    Oracle: the slices of the same elements: ==, !=, <, <=, >, >=, partial_cmp (None for NaN), cmp; a recording Hasher must see the identical sequence of write_* calls (call boundaries kept) from the array and from its slice; 15 Debug format specs must print the slice's output; HashMap (SipHash and a call-boundary-sensitive hasher) and BTreeMap keyed by arrays are looked up by &[T] through Borrow. \
                    non-trivial = N >= 1 and (shared prefix, NaN present, or equal pair); distinct = distinct (type, a, b)",
             exhaustive: false,
